@@ -14,6 +14,7 @@ import (
 	"github.com/smart-core-os/sc-api/go/types"
 
 	"github.com/smart-core-os/sc-golang/internal/minibus"
+	"github.com/smart-core-os/sc-golang/internal/verifhook"
 )
 
 type Collection struct {
@@ -157,6 +158,7 @@ func (c *Collection) Update(id string, msg proto.Message, opts ...WriteOption) (
 		}
 		return nil, err
 	}
+	verifhook.Yield("coll.publish")
 	changeType := types.ChangeType_UPDATE
 	if oldValue == nil || created != nil {
 		changeType = types.ChangeType_ADD
@@ -186,6 +188,7 @@ func (c *Collection) Delete(id string, opts ...WriteOption) (proto.Message, erro
 	c.mu.RLock()
 	oldVal, exists := c.byId[id]
 	c.mu.RUnlock()
+	verifhook.Yield("del.read")
 
 	for attempt := 0; attempt < 5; attempt++ {
 		if !exists {
@@ -209,6 +212,7 @@ func (c *Collection) Delete(id string, opts ...WriteOption) (proto.Message, erro
 			// someone changed something while we were checking the value, try again
 			c.mu.Unlock()
 			oldVal, exists = oldVal2, exists2
+			verifhook.Yield("del.retry")
 			continue
 		}
 
